@@ -43,10 +43,12 @@ fn dispatch(cmd: &str, args: &[&str]) -> String {
         "ENC" => wire::enc(args),
         "RT" => wire::rt(args),
         "CMP" => lang::cmp(args),
+        "CMPX" => lang::cmpx(args),
         "AST" => lang::ast(args),
         "BKD" => bkd::bkd(args),
         "BKDR" => bkd::bkdr(args),
         "RUN" => rt::run(args),
+        "RUNPAIR" => rt::runpair(args),
         "GETF" => rt::getf(args),
         "UID" => uid::uid(args),
         "STOP" => stop::stop(args),
@@ -85,7 +87,14 @@ impl tracing::Subscriber for EverythingEnabled {
 
 fn main() {
     panic::set_hook(Box::new(|_| {}));
-    let _ = tracing::subscriber::set_global_default(EverythingEnabled);
+    // PHARNESS_TRACING=off: no subscriber at all (every callsite disabled) - behaviour must not depend on whether anybody listens
+    if std::env::var("PHARNESS_TRACING").map(|v| v != "off").unwrap_or(true) {
+        let _ = tracing::subscriber::set_global_default(EverythingEnabled);
+    }
+    // start with the process-global program-uid counter beyond 16 bits: uids are 32-bit everywhere
+    for _ in 0..66_000 {
+        let _ = portus::lang::Scope::new();
+    }
     let stdin = std::io::stdin();
     // portus prints diagnostics with println! (lang::compile on a failed override): keep them out of
     // the answer stream by answering on a private duplicate of fd 1 and pointing fd 1 at /dev/null.
